@@ -55,15 +55,63 @@ def tasks(tier):
     # the hand-over uses ParticleArray.extract_particles / remove_particles /
     # align_particles: their contracts (C06) are re-proved here
     return ['zones', 'wiring', 'inlet', 'outlet', 'mirror', 'length',
-            'steppers', 'setup', 'canary',
+            'steppers', 'setup', 'canary', 'history',
             'dep:C06:extract', 'dep:C06:remove', 'dep:C06:align',
             'dep:C06:add']
+
+
+def task_history(ctx):
+    """BOUNDED stand-in, never counted as proved: random histories of update
+    calls on the real Inlet/Outlet classes of every family, compared with the
+    property's own bookkeeping (contracts/c16_history_walk.py).  The
+    contracts below are per call; "exactly once over any run" is a statement
+    about histories, and the composition of extract / recycle / remove over
+    many updates is only exercised here."""
+    import os
+    from concurrent.futures import ThreadPoolExecutor
+    from pyvc.repo import REPO_ROOT
+    thorough = ctx.tier == 'thorough'
+    nproc = 8 if thorough else 4
+    per = 4 if thorough else 1
+    updates = 12 if thorough else 8
+    src = open(os.path.join(os.path.dirname(os.path.abspath(__file__)),
+                            'c16_history_walk.py')).read()
+
+    def one(k):
+        return native.run_venv(src, dict(
+            root=REPO_ROOT, seeds=list(range(k * per, (k + 1) * per)),
+            updates=updates), timeout=3000, cwd='/tmp')
+    # one warm-up trial first so that the evaluator extension is compiled
+    # once, not by every worker at the same time
+    native.run_venv(src, dict(root=REPO_ROOT, seeds=[], updates=1),
+                    timeout=1800, cwd='/tmp')
+    with ThreadPoolExecutor(nproc) as ex:
+        res = list(ex.map(one, range(nproc)))
+    bound = ('%d seeds x (base classes + 5 families) x inlet/outlet, with '
+             'and without ghost arrays, random unit normals in 3-D, zone '
+             'lengths 0.2..0.8, 1-9 particles per array, %d updates each '
+             'with per-particle random displacements along the normal in '
+             '[-0.14 L, 0.42 L] (several crossing at once, coming back); '
+             'after every update all three arrays compared record by record '
+             'with the bookkeeping computed from the positions before it' % (
+                 nproc * per, updates))
+    bad = [r['bad'] for r in res if r['bad']]
+    if bad:
+        b = bad[0]
+        ctx.bounded_check('history.%s.%s' % (b.get('family'), b.get('kind')),
+                          bound, 1, False, b)
+    else:
+        ctx.bounded_check('history.updates', bound,
+                          sum(r['cases'] for r in res), True,
+                          'update calls that agree with the bookkeeping')
 
 
 def run_task(task, ctx):
     if task.startswith('dep:'):
         from contracts import deps
         return deps.run_dep(task, ctx)
+    if task == 'history':
+        return task_history(ctx)
     repo = Repo()
     m = repo.module(MOD)
     if task == 'length':
@@ -865,7 +913,13 @@ def task_setup(ctx, repo, m):
                                            'ghost_inlet', 'ghost_outlet')}
     for tag, ipairs, opairs in (('ghosts', {'inlet': 'ghost_inlet'},
                                  {'outlet': 'ghost_outlet'}),
-                                ('noghosts', {}, {})):
+                                ('noghosts', {}, {}),
+                                # the defaults: InletInfo has a ghost,
+                                # OutletInfo has none -- nothing is carried
+                                # over from one zone to the next
+                                ('inlet_only', {'inlet': 'ghost_inlet'}, {}),
+                                ('outlet_only', {}, {'outlet':
+                                                     'ghost_outlet'})):
         del built[:]
         upd = []
         obj = SymObject('InletOutletManager', dict(
